@@ -144,10 +144,25 @@ func szJudgeCls(got size.Size, err error, cls string, ok bool, val uint64, class
 
 // szParse calls the parser with the package limits set as the protocol line would set them.
 func szParse(in string, ml, mk int, r size.Rule) (size.Size, error) {
-	o1, o2 := size.MaxInputLength, size.MaxObjectKeys
+	o1, o2, o3 := size.MaxInputLength, size.MaxObjectKeys, size.DefaultRule
 	size.MaxInputLength, size.MaxObjectKeys = ml, mk
-	defer func() { size.MaxInputLength, size.MaxObjectKeys = o1, o2 }()
+	// cross-talk: DefaultParser is specified by its arguments and the two limits alone - it runs under every setting of
+	// the three marshal switches and under other DefaultRule values in turn, the expectation stays what it is
+	szCross++
+	size.DefaultRule = szCrossRules[szCross/8%len(szCrossRules)]
+	restore := setSizeSwitches(szCross & 7)
+	defer func() { restore(); size.MaxInputLength, size.MaxObjectKeys, size.DefaultRule = o1, o2, o3 }()
 	return size.DefaultParser(in, r)
+}
+
+var (
+	szCross      int
+	szCrossRules = []size.Rule{size.DefaultRule, 0, size.RuleDisableUnit, 15, size.RuleDisallowUnknownKeys, size.RuleEnableJSONStringForm}
+)
+
+// szCrossDetail names the setting the last szParse call ran under (for failure messages).
+func szCrossDetail() string {
+	return fmt.Sprintf("[marshal switches %03b, DefaultRule %d]", szCross&7, int(szCrossRules[szCross/8%len(szCrossRules)]))
 }
 
 func szParseLine(in string, ml, mk int, r size.Rule) string {
@@ -321,6 +336,8 @@ func propC13(c *Ctx) {
 	check := func(s uint64) {
 		sz := size.Size(s)
 		in := fmt.Sprintf("size.shorten %d", s)
+		// Shorten and the renderings do not depend on the marshal switches: each size under one of the 8 settings
+		defer setSizeSwitches(int(s^s>>7^s>>23) & 7)()
 		v, u := sz.Shorten()
 		c.Check("")
 		// exact
@@ -367,13 +384,13 @@ func propC13(c *Ctx) {
 			}
 		}
 		if sz.String() != dec+wu {
-			c.Fail("C13.String", fmt.Sprintf("size.format %d 0 -", s), "%q", sz.String())
+			c.Fail("C13.String", fmt.Sprintf("size.format %d 0 -", s), "%q under marshal switches %03b", sz.String(), int(s^s>>7^s>>23)&7)
 		}
 		if sz.PrettyString() != szGroup3(dec, " ")+" "+wu {
-			c.Fail("C13.PrettyString", fmt.Sprintf("size.format %d 1 -", s), "%q", sz.PrettyString())
+			c.Fail("C13.PrettyString", fmt.Sprintf("size.format %d 1 -", s), "%q under marshal switches %03b", sz.PrettyString(), int(s^s>>7^s>>23)&7)
 		}
 		if string(sz.PrettyHTML()) != szGroup3(dec, "&nbsp;")+"&nbsp;"+wu {
-			c.Fail("C13.PrettyHTML", fmt.Sprintf("size.format %d 3 -", s), "%q", sz.PrettyHTML())
+			c.Fail("C13.PrettyHTML", fmt.Sprintf("size.format %d 3 -", s), "%q under marshal switches %03b", sz.PrettyHTML(), int(s^s>>7^s>>23)&7)
 		}
 	}
 	// odd x 2^k for every k, boundary and random odd parts
@@ -439,6 +456,28 @@ func propC13(c *Ctx) {
 			}
 		}
 	}
+	// every switch setting for a handful of sizes (check() picks one setting per size)
+	for cfg := 0; cfg < 8; cfg++ {
+		for _, s := range []uint64{0, 1, 1000, 1023, 1024, 1536, 3 << 20, 999999, 1 << 40, 123456789 << 10, math.MaxUint64, 1 << 63} {
+			for d := uint64(0); d < 8; d++ { // some s+d lands on this setting
+				if int((s+d)^(s+d)>>7^(s+d)>>23)&7 == cfg {
+					delete(seen, s+d)
+					visit(s+d, false)
+					break
+				}
+			}
+			func() {
+				defer setSizeSwitches(cfg)()
+				sz := size.Size(s)
+				dec, wu := szShortenWant(s)
+				c.Check("")
+				if v, u := sz.Shorten(); fmt.Sprint(v) != dec || u != wu || sz.String() != dec+wu || sz.PrettyString() != szGroup3(dec, " ")+" "+wu ||
+					string(sz.PrettyHTML()) != szGroup3(dec, "&nbsp;")+"&nbsp;"+wu || sz.BytesString() != fmt.Sprint(s) || fmt.Sprint(sz) != dec+wu {
+					c.Fail("C13.switches", fmt.Sprintf("size.paths %d", s), "under marshal switches %03b: Shorten %d %s, String %q, PrettyString %q, PrettyHTML %q, BytesString %q", cfg, v, u, sz.String(), sz.PrettyString(), sz.PrettyHTML(), sz.BytesString())
+				}
+			}()
+		}
+	}
 	// all values below 2^20 (direct oracle; correspondence for a stripe of them)
 	stripe := uint64(97)
 	if c.Thorough {
@@ -455,6 +494,19 @@ func propC13(c *Ctx) {
 // ---------------------------------------------------------------------------------------- C04
 type szInner struct {
 	G size.Size `json:"g"`
+}
+
+// szIndentBudget: a value that occupies up to this many bytes of a document (its own text plus the white space encoding/json puts
+// inside it when indenting) must unmarshal under the limits the package ships with. 128 is the shipped MaxInputLength the property
+// was written against; beyond it the unchanged library refuses the value (input too long), which is recorded, not asserted.
+const szIndentBudget = 128
+
+// szNest: a configuration-file shaped document with sizes depth levels down (struct field, slice element, map value)
+type szNest struct {
+	N *szNest              `json:"n,omitempty"`
+	S *size.Size           `json:"s,omitempty"`
+	L []size.Size          `json:"l,omitempty"`
+	M map[string]size.Size `json:"m,omitempty"`
 }
 
 type szHolder struct {
@@ -487,6 +539,7 @@ func szSetMarshalCfg(cfg int) func() {
 func propC04(c *Ctx) {
 	checkStrings := func(s uint64) {
 		sz := size.Size(s)
+		defer setSizeSwitches(int(s^s>>5^s>>19) & 7)() // renderings and parsers do not depend on the marshal switches
 		for i, txt := range []string{sz.String(), sz.PrettyString(), sz.BytesString()} {
 			p, err := szParse(txt, 128, 16, 0)
 			c.Check("")
@@ -520,6 +573,17 @@ func propC04(c *Ctx) {
 			c.Fail("C04.json.marshal", fmt.Sprintf("size.marshal %d %d json", s, cfg), "%q %v", j, err)
 		} else if e := back.UnmarshalJSON(j); e != nil || back != sz {
 			c.Fail("C04.json", fmt.Sprintf("size.marshal %d %d json", s, cfg), "%q -> %d %v", j, uint64(back), e)
+		}
+		// what was marshalled under these switches unmarshals under any other setting of them too
+		if err == nil && t != nil {
+			other := (cfg + 1 + int(s%7)) & 7
+			func() {
+				defer setSizeSwitches(other)()
+				var b1, b2 size.Size = 77, 77
+				if e1, e2 := b1.UnmarshalText(t), b2.UnmarshalJSON(j); e1 != nil || e2 != nil || b1 != sz || b2 != sz {
+					c.Fail("C04.switches", fmt.Sprintf("size.marshal %d %d json", s, cfg), "marshalled under switches %03b (%q, %q), unmarshalled under %03b: %d %v / %d %v", cfg, t, j, other, uint64(b1), e1, uint64(b2), e2)
+				}
+			}()
 		}
 		// the form is the configured one (generic decoding)
 		if err == nil {
@@ -646,8 +710,70 @@ func propC04(c *Ctx) {
 			n++
 		}
 	}
-	c.NT(n * 8)
+	// ---- nested AND indented, as configuration files are: encoding/json re-indents the object form, so UnmarshalJSON is handed the value
+	// with white space inside it - how much depends on depth and indent width. Judged under the shipped limits wherever the value as
+	// it stands in the document fits the shipped MaxInputLength (beyond that the recorded interpretation of the limit applies).
+	nInd, nOver, firstOver := 0, 0, ""
+	for _, cfg := range []int{0, 1, 4, 5, 6} {
+		func() {
+			defer szSetMarshalCfg(cfg)()
+			for _, s := range []uint64{0, 1500, 1 << 30, 3 << 40, math.MaxUint64} {
+				sz := size.Size(s)
+				for _, ind := range [][2]string{{"", ""}, {"", " "}, {"", "  "}, {"", "    "}, {"", "        "}, {"", "\t"}, {"  ", "  "}, {"\t", "\t"}} {
+					for _, depth := range []int{1, 2, 3, 4, 5, 6, 7, 8, 10, 12, 16, 24, 32, 40} {
+						root := &szNest{}
+						cur := root
+						for i := 1; i < depth; i++ {
+							cur.N = &szNest{}
+							cur = cur.N
+						}
+						cur.S, cur.L, cur.M = &sz, []size.Size{sz}, map[string]size.Size{"k": sz}
+						doc, err := json.MarshalIndent(root, ind[0], ind[1])
+						if err != nil {
+							c.Fail("C04.indent", fmt.Sprintf("size.marshal %d %d json", s, cfg), "MarshalIndent: %v", err)
+							continue
+						}
+						// the bytes of the value as they stand in the document
+						raw := json.RawMessage(doc)
+						for i := 1; i < depth; i++ {
+							var m map[string]json.RawMessage
+							json.Unmarshal(raw, &m)
+							raw = m["n"]
+						}
+						var m map[string]json.RawMessage
+						json.Unmarshal(raw, &m)
+						var lst []json.RawMessage
+						json.Unmarshal(m["l"], &lst)
+						longest := len(m["s"])
+						if len(lst) == 1 && len(lst[0]) > longest {
+							longest = len(lst[0])
+						}
+						c.Check("")
+						nInd++
+						if longest > szIndentBudget {
+							nOver++
+							if firstOver == "" {
+								firstOver = fmt.Sprintf("cfg %d, prefix %q indent %q, depth %d: the value occupies %d bytes of the document", cfg, ind[0], ind[1], depth, longest)
+							}
+							continue
+						}
+						var back szNest
+						e := json.Unmarshal(doc, &back)
+						b := &back
+						for i := 1; i < depth && b != nil; i++ {
+							b = b.N
+						}
+						if e != nil || b == nil || b.S == nil || *b.S != sz || len(b.L) != 1 || b.L[0] != sz || b.M["k"] != sz {
+							c.Fail("C04.indent", fmt.Sprintf("size.marshal %d %d json", s, cfg), "size %d, switches %03b, MarshalIndent(prefix %q, indent %q), nesting depth %d (the value occupies %d bytes of the document; shipped MaxInputLength %d): %v", s, cfg, ind[0], ind[1], depth, longest, szInitMaxLen, e)
+						}
+					}
+				}
+			}
+		}()
+	}
+	c.NT(n*8 + int64(nInd))
 	c.Note("C04 visited %d sizes x 8 configurations (%d of them also as correspondence lines)", n, len(samples))
+	c.Note("indented nested documents: %d judged, %d not judged because the re-indented value alone exceeds %d bytes (first: %s)", nInd-nOver, nOver, szIndentBudget, firstOver)
 }
 
 // ---------------------------------------------------------------------------------------- C08
@@ -921,7 +1047,7 @@ func propC08(c *Ctx) {
 					line := szParseLine(txt, 128, 16, r)
 					p, perr := szParse(txt, 128, 16, r)
 					if msg := szJudge(p, perr, wok, wval, wclass); msg != "" {
-						c.Fail("C08.text", line, "%q rule %d: %s", txt, int(r), msg)
+						c.Fail("C08.text", line, "%q rule %d: %s %s", txt, int(r), msg, szCrossDetail())
 					}
 					// the regular-expression reading of the grammar must agree with the construction
 					ook, oval, _ := szTextOracle(txt, r != 0)
@@ -999,7 +1125,7 @@ func propC08(c *Ctx) {
 			c.Check("")
 			line := szParseLine(txt, ml, 16, r)
 			if msg := szJudge(p, err, ok, val, class); msg != "" {
-				c.Fail("C08.grammar", line, "%q rule %d: %s", txt, int(r), msg)
+				c.Fail("C08.grammar", line, "%q rule %d: %s %s", txt, int(r), msg, szCrossDetail())
 			}
 			if emit {
 				c.Op(line)
@@ -1532,7 +1658,7 @@ func propC12(c *Ctx) {
 				got, err := szParse(doc, 0, mk, r)
 				c.Check("")
 				if msg := szJudge12(got, err, d.szExpectFor(doc, 0, mk, r)); msg != "" {
-					c.Fail("C12.parse", szParseLine(doc, 0, mk, r), "%q rule %d max %d: %s", doc, int(r), mk, msg)
+					c.Fail("C12.parse", szParseLine(doc, 0, mk, r), "%q rule %d max %d: %s %s", doc, int(r), mk, msg, szCrossDetail())
 				}
 				if mode == 2 {
 					c.Op(szParseLine(doc, 0, mk, r))
@@ -1963,6 +2089,111 @@ func propC12(c *Ctx) {
 			visit(`{"value":3,"unit":"kB","o":`+oopen+`1`+oclose[1:]+`}`, side)
 		}
 	}
-	c.NT(nDocs * 80)
-	c.Note("C12 judged %d distinct inputs x 80 configurations; %d token-stream lines", nDocs, nTok)
+	// ---- wide objects: many members (a hard cap hidden behind MaxObjectKeys would show here), value / unit first, in the
+	// middle, last; limits 0, n-1, n, n+1, 1000, 5000
+	nWide := int64(0)
+	for wi, n := range []int{20, 33, 64, 65, 100, 128, 255, 256, 257, 500, 1000, 1024, 1025, 3000} {
+		for variant := 0; variant < 4; variant++ {
+			ms := make([]szMember, 0, n)
+			for i := 0; i < n; i++ {
+				ms = append(ms, szMember{fmt.Sprintf("k%d", i), []string{"1", `"s"`, "[]", `{"value":1}`, "null"}[i%5]})
+			}
+			vp, up := [][2]int{{0, n - 1}, {n - 1, 0}, {n / 2, n/2 + 1}, {n - 2, n - 1}}[variant][0], [][2]int{{0, n - 1}, {n - 1, 0}, {n / 2, n/2 + 1}, {n - 2, n - 1}}[variant][1]
+			ms[vp] = szMember{[]string{"value", "VALUE"}[variant%2], "3"}
+			ms[up] = szMember{"unit", `"KiB"`}
+			if variant == 3 {
+				ms[0] = szMember{"Unit", `"B"`} // a duplicate far away from its twin
+			}
+			doc := szBuildObj(ms, 0)
+			d := szAnalyse(doc)
+			for _, mk := range []int{0, n - 1, n, n + 1, 1000, 5000} {
+				for _, r := range []size.Rule{4, 6, 12} {
+					got, err := szParse(doc, 0, mk, r)
+					c.Check("")
+					nWide++
+					line := fmt.Sprintf("size.parse 0 %d %d <object with %d members, variant %d>", mk, int(r), n, variant)
+					if n <= 300 {
+						line = szParseLine(doc, 0, mk, r)
+					}
+					if msg := szJudge12(got, err, d.szExpectFor(doc, 0, mk, r)); msg != "" {
+						c.Fail("C12.wide", line, "object with %d members (value at %d, unit at %d), rule %d, MaxObjectKeys %d: %s %s", n, vp, up, int(r), mk, msg, szCrossDetail())
+					}
+					if n <= 300 && (variant+wi+mk)%3 == 0 {
+						c.Op(line)
+					}
+				}
+			}
+		}
+	}
+	// an unknown member that is wide itself (skipped arrays / objects with many elements, long keys and strings)
+	for _, n := range []int{100, 1000, 20000} {
+		elems := strings.Repeat("1,", n) + "2"
+		longKey := strings.Repeat("k", n)
+		for _, doc := range []string{`{"x":[` + elems + `],"value":3,"unit":"kB"}`, `{"value":3,"x":{"a":[` + elems + `],"b":"` + longKey + `"},"unit":"kB"}`, `{"` + longKey + `":1,"value":3,"unit":"kB"}`,
+			`{"value":3,"unit":"kB","s":"` + longKey + `"}`, `"` + strings.Repeat(" ", n) + `3 kB"`} {
+			d := szAnalyse(doc)
+			for _, r := range []size.Rule{6, 14} {
+				got, err := szParse(doc, 0, 16, r)
+				c.Check("")
+				nWide++
+				if msg := szJudge12(got, err, d.szExpectFor(doc, 0, 16, r)); msg != "" {
+					c.Fail("C12.wide", fmt.Sprintf("size.parse 0 16 %d <%d-element unknown member / long key or string>", int(r), n), "%.60s...: rule %d: %s", doc, int(r), msg)
+				}
+			}
+			if n <= 100 {
+				c.Op(szParseLine(doc, 0, 16, 6))
+			}
+		}
+	}
+	// ---- escaped spellings: any JSON writer may escape any character. Member names and unit / string-form texts with
+	// \uXXXX (both hex cases), \/, escaped quotes and backslashes, surrogate pairs; the reference is encoding/json's own decoding
+	esc := func(t string, mode int) string { // JSON string literal of t with some / all characters escaped
+		var sb strings.Builder
+		sb.WriteByte('"')
+		for i, r := range t {
+			switch {
+			case r == '"' || r == '\\':
+				sb.WriteByte('\\')
+				sb.WriteRune(r)
+			case r == '/' && mode != 3:
+				sb.WriteString(`\/`)
+			case r > 0xffff && mode != 3:
+				r -= 0x10000
+				fmt.Fprintf(&sb, `\u%04x\u%04X`, 0xd800+(r>>10), 0xdc00+(r&0x3ff))
+			case r < 0x20 || mode == 0 || mode == 1 && i == 0 || mode == 2 && i == len(t)-1:
+				if (i+mode)%2 == 0 {
+					fmt.Fprintf(&sb, `\u%04x`, r)
+				} else {
+					fmt.Fprintf(&sb, `\u%04X`, r)
+				}
+			default:
+				sb.WriteRune(r)
+			}
+		}
+		sb.WriteByte('"')
+		return sb.String()
+	}
+	nEsc := 0
+	for ui, u := range append(append([]string{}, szUnits18...), "kb", "Ki", "KiB ", "MB/s", "K\"iB", "Ki\\B", "😀B", "k\u00a0B", "B\n", "bytes") {
+		for mode := 0; mode < 4; mode++ {
+			nEsc++
+			docs := []string{`{"value":3,"unit":` + esc(u, mode) + `}`, `{` + esc("unit", mode) + `:` + esc(u, (mode+1)%4) + `,` + esc("value", mode) + `:0}`,
+				`{` + esc("VALUE", mode) + `:7,` + esc("Unit", 3-mode) + `:` + esc(u, mode) + `,` + esc("x/😀", mode) + `:` + esc("unit", mode) + `}`, esc("12 "+u, mode), esc("1 000"+u, (mode+2)%4)}
+			for di, doc := range docs {
+				m := 0
+				if (ui+mode+di)%3 == 0 {
+					m = 1
+				}
+				visit(doc, m)
+			}
+		}
+	}
+	for mode := 0; mode < 3; mode++ { // escaped spellings of names that only look like value / unit
+		for _, k := range []string{"valu", "value ", "units", "v\u0430lue", "unit\x00", "un/it"} {
+			visit(`{"value":2,`+esc(k, mode)+`:"KiB","unit":"B"}`, 1)
+			visit(`{`+esc(k, mode)+`:5,"unit":"B"}`, 0)
+		}
+	}
+	c.NT(nDocs*80 + nWide)
+	c.Note("C12 judged %d distinct inputs x 80 configurations; %d token-stream lines; %d wide-object evaluations; %d escaped spellings of units", nDocs, nTok, nWide, nEsc)
 }
